@@ -58,6 +58,10 @@ fn allows_dead(attrs: &[Attribute]) -> bool {
     })
 }
 
+fn allows_unused(attrs: &[Attribute]) -> bool {
+    attrs.iter().any(|a| (a.path().is_ident("allow") || a.path().is_ident("expect")) && a.meta.to_token_stream().to_string().contains("unused"))
+}
+
 fn line<T: spanned::Spanned>(t: &T) -> usize {
     t.span().start().line
 }
@@ -78,6 +82,7 @@ struct Scan {
     assoc_fns: Vec<Value>,
     method_calls: Vec<Value>,
     dead_stack: Vec<bool>,
+    unused_stack: Vec<bool>,
 }
 
 impl Scan {
@@ -185,6 +190,7 @@ impl<'ast> Visit<'ast> for Scan {
         if !matches!(i, Item::Use(_) | Item::Impl(_)) {
             self.items.push(json!({"kind": kind, "name": name, "cfg": full, "line": line(i), "fn": self.fn_stack.last(), "allow_dead": allows_dead(attrs) || self.dead_stack.iter().any(|x| *x)}));
         }
+        self.unused_stack.push(allows_unused(attrs));
         self.with(attrs, |s| match i {
             Item::Use(u) => {
                 let mut p = vec![];
@@ -234,15 +240,18 @@ impl<'ast> Visit<'ast> for Scan {
             }
             _ => visit::visit_item(s, i),
         });
+        self.unused_stack.pop();
     }
 
     fn visit_impl_item_fn(&mut self, f: &'ast ImplItemFn) {
         let attrs = f.attrs.clone();
+        self.unused_stack.push(allows_unused(&attrs));
         self.with(&attrs, |s| {
             s.fn_stack.push(f.sig.ident.to_string());
             visit::visit_impl_item_fn(s, f);
             s.fn_stack.pop();
         });
+        self.unused_stack.pop();
     }
 
     fn visit_variant(&mut self, v: &'ast Variant) {
@@ -258,7 +267,9 @@ impl<'ast> Visit<'ast> for Scan {
     fn visit_fn_arg(&mut self, a: &'ast FnArg) {
         if let FnArg::Typed(t) = a {
             let attrs = t.attrs.clone();
+            self.unused_stack.push(allows_unused(&attrs));
             self.with(&attrs, |s| visit::visit_fn_arg(s, a));
+            self.unused_stack.pop();
         } else {
             visit::visit_fn_arg(self, a);
         }
@@ -266,6 +277,7 @@ impl<'ast> Visit<'ast> for Scan {
 
     fn visit_local(&mut self, l: &'ast Local) {
         let attrs = l.attrs.clone();
+        self.unused_stack.push(allows_unused(&attrs));
         self.with(&attrs, |s| {
             let mut names = vec![];
             collect_pat_idents(&l.pat, &mut names);
@@ -274,10 +286,11 @@ impl<'ast> Visit<'ast> for Scan {
             }
             visit::visit_local(s, l);
         });
+        self.unused_stack.pop();
     }
 
     fn visit_pat_ident(&mut self, p: &'ast PatIdent) {
-        self.bindings.push(json!({"name": p.ident.to_string(), "fn": self.fn_stack.last(), "cfg": self.cur(), "line": line(p)}));
+        self.bindings.push(json!({"name": p.ident.to_string(), "fn": self.fn_stack.last(), "cfg": self.cur(), "line": line(p), "allow_unused": self.unused_stack.iter().any(|x| *x)}));
         visit::visit_pat_ident(self, p);
     }
 
@@ -352,7 +365,7 @@ fn scan_file(path: &Path, module: Vec<String>, out: &mut Vec<Value>, root: &Path
             return;
         }
     };
-    let mut s = Scan { stack: vec![], fn_stack: vec![], items: vec![], uses: vec![], paths: vec![], lets: vec![], variants: vec![], arms: vec![], macro_idents: vec![], item_macros: vec![], bindings: vec![], mods: vec![], assoc_fns: vec![], method_calls: vec![], dead_stack: vec![allows_dead(&file.attrs)] };
+    let mut s = Scan { stack: vec![], fn_stack: vec![], items: vec![], uses: vec![], paths: vec![], lets: vec![], variants: vec![], arms: vec![], macro_idents: vec![], item_macros: vec![], bindings: vec![], mods: vec![], assoc_fns: vec![], method_calls: vec![], dead_stack: vec![allows_dead(&file.attrs)], unused_stack: vec![allows_unused(&file.attrs)] };
     s.stack.extend(cfgs(&file.attrs));
     s.visit_file(&file);
     let rel = path.strip_prefix(root).unwrap_or(path).to_string_lossy().to_string();
